@@ -37,6 +37,7 @@ func run(c *core.Ctx) {
 		{cfg: "Gen_C01_comp_tcuts.cfg", dribble: []int{0, 3}},
 		{cfg: "Gen_C01_comp_reads.cfg", dribble: []int{0, 2}},
 		{cfg: "Gen_C01_comp_pairs.cfg", dribble: []int{0, 1}},
+		{cfg: "Gen_C01_abandon.cfg", dribble: []int{0}},
 		{cfg: "Gen_C01_typed_multi.cfg", dribble: []int{0}},
 		{cfg: "Gen_C01_typed_sb.cfg", dribble: []int{0}},
 		{cfg: "Gen_C01_sizes_sim.cfg", dribble: []int{0}, opt: tlc.Options{Simulate: "num=120", Depth: 40, Seed: c.Seed}},
@@ -48,6 +49,7 @@ func run(c *core.Ctx) {
 			{cfg: "Gen_C01_sizes_writes.cfg", dribble: []int{0}},
 			{cfg: "Gen_C01_comp_full.cfg", dribble: []int{0, 1}},
 			{cfg: "Gen_C01_comp_pairs.cfg", dribble: []int{0, 1, 2}},
+			{cfg: "Gen_C01_abandon.cfg", dribble: []int{0, 1}},
 			{cfg: "Gen_C01_typed_multi.cfg", dribble: []int{0, 100}},
 			{cfg: "Gen_C01_typed_sb.cfg", dribble: []int{0}},
 			{cfg: "Gen_C01_sizes_sim.cfg", dribble: []int{0}, opt: tlc.Options{Simulate: "num=1000", Depth: 40, Seed: c.Seed}},
